@@ -9,6 +9,7 @@ package c17
 
 import (
 	"fmt"
+	"strings"
 	"testing"
 	"time"
 
@@ -303,7 +304,13 @@ func TestCheck(t *testing.T) {
 		var c Case
 		r.DecodeReplay(&c)
 		var kind, detail string
-		if c.UDP {
+		if strings.HasPrefix(c.Carrier, "real-") {
+			kind, detail = executeRealChannel(c)
+			if kind == "slow" || kind == "setup" {
+				r.Inconclusive(c.String() + ": " + detail)
+				return
+			}
+		} else if c.UDP {
 			kind, detail = executeUDP(c)
 		} else {
 			kind, detail = execute(t, c)
@@ -331,5 +338,6 @@ func TestCheck(t *testing.T) {
 		r.Progress(idx + 1)
 	}
 	udpCases(r, len(all))
+	realChannelCases(r, len(all)+200)
 	r.Note("cases_total", len(all))
 }
